@@ -108,8 +108,8 @@ SPECS = {
         explanation="registered predicates x 26 argument shapes (all for arity 1, pairs for arity 2, samples above) and byte strings (all up to length 2 over 31 symbols, samples and all of length 3 in the thorough tier, truncations and mutations of valid texts) as query and program text; outcome of every task classified: answers / failure / ISO error / rejected text / budget / panic residue / non-ISO error / process aborted / wedged",
     ),
     "C06": dict(
-        level="proof", props_deps=["Proofs/Canon.v", "Proofs/Quote.v"], model_deps=["Model/Canon.v", "Model/QuoteCheck.v"],
-        trusted=COMMON_TRUSTED + ["PARTIAL: hand-written Model/Canon.v (tokens, canonical printer, recursive-descent reader) covers plain atoms, integers and compounds in functional notation; the printer's text is compared with write_canonical/1, the model's reader is not compared with the implementation's",
+        level="proof", props_deps=["Proofs/Canon.v", "Proofs/Quote.v", "Proofs/CanonLex.v"], model_deps=["Model/Canon.v", "Model/CanonLex.v", "Model/QuoteCheck.v"],
+        trusted=COMMON_TRUSTED + ["PARTIAL: hand-written Model/Canon.v (tokens, canonical printer, recursive-descent reader) covers plain atoms, integers and compounds in functional notation; the printer's text is compared with write_canonical/1; Model/CanonLex.v (a maximal-munch lexer for names, decimal integers and ( ) ,) reads the implementation's text back and must return the term, as read_term does on the implementation",
                                   "hand-written Model/Quote.v (quote() of atom.go; quotedToken/escapeSequence of lexer.go with the unescaping of parser.go) over code points, parametric in isSingleQuotedCharacter; its text is compared with writeq/1 on random atoms, with accept_gen standing for isSingleQuotedCharacter on the generator's characters",
                                   "operators of every specifier and priority, user operator tables, quoting and escapes, floats, variables, lists, curly terms, double_quotes: decided by round trips on the implementation over generated terms (terms are built with atom_codes/2, =../2 and Go floats, not through the reader); that part is testing, not proof"],
         assumptions=["'$VAR'(N) terms are not generated (numbervars output is not re-readable by definition)",
